@@ -512,6 +512,9 @@ impl Property for C11 {
                 }
             }
         }
+        if rng.chance(6) {
+            sc.cmds = gen::goto_machine(rng, true);
+        }
         if rng.chance(3) {
             sc.cmds.clear();
         }
